@@ -454,7 +454,14 @@ unsafe fn do_spawn<F: PreExec>(
     let (ours, theirs) = setup_io(default_stdio, needs_stdin, stdin, stdout, stderr)?;
     let sync_pipe = rusl::unistd::pipe2(OpenFlags::O_CLOEXEC)?;
     let (read_pipe, write_pipe) = (sync_pipe.in_pipe, sync_pipe.out_pipe);
-    let child_pid = rusl::process::fork()?;
+    let child_pid = match rusl::process::fork() {
+        Ok(pid) => pid,
+        Err(e) => {
+            let _ = rusl::unistd::close(read_pipe);
+            let _ = rusl::unistd::close(write_pipe);
+            return Err(e.into());
+        }
+    };
     // From this point we're two processes
     if child_pid == 0 {
         // Executing as child process, which must never return into the caller's code:
@@ -518,13 +525,15 @@ unsafe fn do_spawn<F: PreExec>(
         rusl::process::exit(1);
     }
     let _ = rusl::unistd::close(write_pipe);
+    // The parent's read end is closed on every way out of this function
+    let read_pipe = OwnedFd(read_pipe);
     let mut process = Process {
         pid: child_pid,
         status: None,
     };
     let mut bytes = [0, 0, 0, 0, 0, 0, 0, 0];
     loop {
-        match rusl::unistd::read(read_pipe, &mut bytes) {
+        match rusl::unistd::read(read_pipe.0, &mut bytes) {
             Ok(0) => {
                 let child = Child {
                     handle: process,
